@@ -5,8 +5,10 @@ package options
 // Contracts for gcv (comment-only file; compiled only with -tags verif, and then to nothing).
 
 // Cookie options are configuration: written while options are loaded/validated, never by request handling
-// (scan "cookie-options-writers" in the root package).
+// (scan "cookie-options-writers" below).
 //@ stable Cookie.*
+//@ prop C09 C18 C02 C10 C11
+//@ scan[cookie-options-writers] field-writers Cookie.* pkg/apis/options.cookieDefaults pkg/sessions/tests.*
 
 // reverse-proxy mode is fixed when the options are loaded
 //@ stable Options.ReverseProxy Options.SkipJwtBearerTokens Options.Cookie Options.HtpasswdUserGroups Options.LegacyPreferEmailToUser
